@@ -393,28 +393,35 @@ Fixpoint assign_counts (n : nat) (counts : list Z) : list (list nat) :=
                (seq 0 (length counts))
   end.
 
-Definition ryser_coeff (coded : bool) (N : list (list Zi)) (D : Z) (d : nat)
-           (G : list (list Zi)) (Dg : Z) (s t : list Z) : Q :=
+(* D^2 (I - T^dagger T)[input,input] *)
+Definition ryser_K (T : list (list Zi)) (D : Z) (d : nat) (inp idx : list nat) : list (list Zi) :=
+  map (fun p => map (fun q =>
+         ziadd (if Nat.eqb (nth p inp 0%nat) (nth q inp 0%nat) then (D * D, 0)%Z else zi0)
+               (ziscale (-1) (zisum (map (fun r => zimul (ziconj (mget zi0 T r (nth p inp 0%nat)))
+                                                     (mget zi0 T r (nth q inp 0%nat)))
+                                      (seq 0 d))))) idx) idx.
+(* row p of B_lab : label d is the loss block, label m < d the detected block of mode m *)
+Definition ryser_Brow (coded : bool) (T G K : list (list Zi)) (d : nat) (inp idx : list nat)
+           (lab p : nat) : list Zi :=
+  if Nat.eqb lab d then map (fun q => zimul (mget zi0 G p q) (mget zi0 K p q)) idx
+  else map (fun q =>
+         let vp := mget zi0 T lab (nth p inp 0%nat) in
+         let vq := mget zi0 T lab (nth q inp 0%nat) in
+         zimul (mget zi0 G p q)
+               (if coded then zimul vp (ziconj vq) else zimul (ziconj vp) vq)) idx.
+Definition ryser_tot (coded : bool) (N : list (list Zi)) (D : Z) (d : nat)
+           (G : list (list Zi)) (s t : list Z) : Zi :=
   let n := Z.to_nat (sumZ s) in
-  if (sumZ s <? sumZ t)%Z then 0%Q else
   let inp := expand s in
   let T := firstn d N in
   let idx := seq 0 n in
-  (* D^2 (I - T^dagger T)[input,input] *)
-  let K := map (fun p => map (fun q =>
-             ziadd (if Nat.eqb (nth p inp 0%nat) (nth q inp 0%nat) then (D * D, 0)%Z else zi0)
-                   (ziscale (-1) (zisum (map (fun r => zimul (ziconj (mget zi0 T r (nth p inp 0%nat)))
-                                                         (mget zi0 T r (nth q inp 0%nat)))
-                                          (seq 0 d))))) idx) idx in
-  let Brow (lab p : nat) : list Zi :=
-      if Nat.eqb lab d then map (fun q => zimul (mget zi0 G p q) (mget zi0 K p q)) idx
-      else map (fun q =>
-             let vp := mget zi0 T lab (nth p inp 0%nat) in
-             let vq := mget zi0 T lab (nth q inp 0%nat) in
-             zimul (mget zi0 G p q)
-                   (if coded then zimul vp (ziconj vq) else zimul (ziconj vp) vq)) idx in
+  let K := ryser_K T D d inp idx in
   let good := assign_counts n (firstn d t ++ [sumZ s - sumZ t]%Z) in
-  let tot := zisum (map (fun a => ziperm (map (fun p => Brow (nth p a 0%nat) p) idx)) good) in
+  zisum (map (fun a => ziperm (map (fun p => ryser_Brow coded T G K d inp idx (nth p a 0%nat) p) idx)) good).
+Definition ryser_coeff (coded : bool) (N : list (list Zi)) (D : Z) (d : nat)
+           (G : list (list Zi)) (Dg : Z) (s t : list Z) : Q :=
+  if (sumZ s <? sumZ t)%Z then 0%Q else
+  let tot := ryser_tot coded N D d G s t in
   let zin := fst (gram_blocks G 0 s) in
   Qred (inject_Z (fst tot) / inject_Z (D ^ (2 * sumZ s)) / inject_Z zin)%Q.
 
